@@ -360,7 +360,7 @@ fn concurrent_checks(rng: &mut Rng, rounds: u64, st: &mut Stats, noperturb: bool
    let mut races = 0u64;
    for round in 0..rounds {
       let threads = [2usize, 3, 4, 8, 16, 32][rng.below(6)].min(maxthreads);
-      let per = if maxthreads < 8 { 6 + rng.below(10) } else { 20 + rng.below(200) };
+      let per = if maxthreads < 8 { 5 } else { 20 + rng.below(200) };
       let hot = 1 + rng.below(4) as u8;
       let perturb = rng.next() | 1;
       st.sequences += 1;
@@ -447,7 +447,7 @@ fn concurrent_checks(rng: &mut Rng, rounds: u64, st: &mut Stats, noperturb: bool
          // fresh-key races: after a barrier every worker walks the SAME sequence of fresh keys, so that all of them reach
          // each absent key at about the same time; exactly one may win each key
          let fresh: CRelFullIndex<K, V> = Default::default();
-         let nfresh = if maxthreads < 8 { 12u8 } else { 200u8 };
+         let nfresh = if maxthreads < 8 { 6u8 } else { 200u8 };
          ascent::verif::perturb_arm(if round % 2 == 0 && !noperturb { perturb.rotate_left(9) | 1 } else { 0 });
          let barrier = std::sync::Barrier::new(threads);
          let wins: Vec<Vec<u8>> = std::thread::scope(|sc| {
@@ -505,7 +505,24 @@ fn main() {
    let mut rng = Rng::new(seed);
    let mut st = Stats { sequences: 0, sequences_ge2: 0, ops: 0, merges_swapped: 0, merges_unswapped: 0, viol: vec![] };
    let mut ex = 0;
-   if !conc_only {
+   let miri = arg("miri", 0) == 1;
+   if miri {
+      // a handful of short sequences per concurrent type: enough to reach every unsafe block (_yield_write_shard,
+      // data_ptr() reads of frozen shards, the parallel shard iterators) without running for hours
+      let seqs: [&[Op]; 3] = [
+         &[Op::Ins(0, 1), Op::Ins(1, 2), Op::Merge, Op::Ins(0, 2), Op::Merge],
+         &[Op::Merge, Op::Ins(1, 1), Op::Ins(1, 1), Op::Merge, Op::Merge],
+         &[Op::Ins(0, 1), Op::Merge, Op::Ins(0, 1), Op::Ins(1, 3), Op::Merge],
+      ];
+      for ops in seqs {
+         run_sequence::<CRelIndex<K, V>>(ops, &[0, 1, 2], &mut st);
+         run_sequence::<CLatIndex<K, V>>(ops, &[0, 1, 2], &mut st);
+         run_sequence::<CRelFullIndex<K, V>>(ops, &[0, 1, 2], &mut st);
+         run_sequence::<RelIndexType1<K, V>>(ops, &[0, 1, 2], &mut st);
+      }
+      no_index_checks(&mut rng, 1, &mut st);
+      combined_checks(&mut rng, 1, &mut st);
+   } else if !conc_only {
       ex += exhaustive::<RelIndexType1<K, V>>(len, &mut st);
       ex += exhaustive::<LatticeIndexType<K, V>>(len, &mut st);
       ex += exhaustive::<RelFullIndexType<K, V>>(len, &mut st);
